@@ -324,9 +324,14 @@ Definition react_guided (fuel : nat) (s : state) (a : act) (o : obs) : option (l
   explore_b int_succs (consistent o) fuel [s1] (b_add (state_fp s1) s1 []) [].
 
 (* fast path: the deterministic scheduler ([settle]: first enabled rule) *)
+(* an observation with o_inbox < 0 stands for "no quiescent point was awaited after this action": the next action
+   follows at once (a fault queued directly behind an envelope); only the environment action is applied *)
+Definition unobserved (o : obs) : bool := o_inbox o <? 0.
+
 Fixpoint agree_fast (s : state) (acts : list act) (observed : list obs) : bool :=
   match acts, observed with
   | a :: acts', o :: obs' =>
+      if unobserved o then agree_fast (ext s a) acts' obs' else
       let s1 := ext (clear_log s) a in
       let s2 := settle (fuel_of s1) s1 in
       quiescent s2 && obs_eqb (predict s2) o && agree_fast s2 acts' obs'
@@ -339,6 +344,7 @@ Fixpoint agree_fast (s : state) (acts : list act) (observed : list obs) : bool :
 Fixpoint agree_from_f (fuel i : nat) (cands : list state) (acts : list act) (observed : list obs) : option nat :=
   match acts, observed with
   | a :: acts', o :: obs' =>
+      if unobserved o then agree_from_f fuel (S i) (map (fun s => ext s a) cands) acts' obs' else
       let nexts := flat_map (fun s => match react_guided fuel s a o with
                                       | Some qs => filter (fun s' => obs_eqb (predict s') o) qs
                                       | None => []
